@@ -5804,7 +5804,13 @@ class PyCdlib:
         pvd.copy(self.pvd)
         self.pvds.append(pvd)
 
-        self._finish_add(self.logical_block_size, 0)
+        # On a UDF ISO, adding a new PVD doesn't actually increase the size,
+        # since there are a bunch of gaps at the beginning.
+        num_bytes_to_add = 0
+        if not self._has_udf:
+            num_bytes_to_add = self.logical_block_size
+
+        self._finish_add(num_bytes_to_add, 0)
 
     def set_hidden(self, iso_path=None, rr_path=None, joliet_path=None):
         # type: (Optional[str], Optional[str], Optional[str]) -> None
